@@ -173,6 +173,8 @@ def Val.pv? : Val → Option PV
 def convOracle (v : Val) (res : List Res) : Option String := Id.run do
   if res.any (· == .panic) then return some "class=conversion-panic"
   let stored : Option (List Stored) := (Val.pv? v).bind storedInts
+  -- a failure that is a recorded finding does not hide other failures of the same case
+  let mut known : Option String := none
   let mut i := 0
   for T in intTys do
     let single := res.getD (2 * i) .bad
@@ -191,9 +193,13 @@ def convOracle (v : Val) (res : List Res) : Option String := Id.run do
     | .err =>
       match stored with
       | some items =>
-        if items.all (fun it => representable T it) then
+        if items.all (fun it => representableStmt T it) then
           if items.isEmpty then return some s!"class=multi-empty target={tyName T}"
-          return some s!"class=multi-int-refused target={tyName T}"
+          if items.all (fun it => representable T it) then
+            return some s!"class=multi-int-refused target={tyName T}"
+          -- every item is a number that fits, yet refused: a zero written with a minus sign
+          if known.isNone then
+            known := some s!"class=negative-zero-unsigned conv=to_multi_int target={tyName T}"
       | none => pure ()
     | _ => return some "class=bad-result"
     -- to_int: the first stored number
@@ -207,7 +213,10 @@ def convOracle (v : Val) (res : List Res) : Option String := Id.run do
     | .err =>
       match stored with
       | some (it :: _) =>
-        if representable T it then return some s!"class=int-refused target={tyName T}"
+        if representableStmt T it then
+          if representable T it then return some s!"class=int-refused target={tyName T}"
+          if known.isNone then
+            known := some s!"class=negative-zero-unsigned conv=to_int target={tyName T}"
       | _ => pure ()
     | _ => return some "class=bad-result"
   -- floats: one result per stored value, in order; single = first
@@ -234,7 +243,7 @@ def convOracle (v : Val) (res : List Res) : Option String := Id.run do
         if card = 0 then return some s!"class=multi-empty target=f{if w = .w32 then 32 else 64}"
         return some "class=multi-float-refused"
     | _ => return some "class=bad-result"
-  return none
+  return known
 where
   textual : Val → Bool
     | .prim (.str _) | .prim (.strs (_ :: _)) => true
@@ -293,12 +302,14 @@ Returns the verdict (if bad). -/
 def histStepP (before : PV) (op : Op) (res : String) (after : PV) : Option String :=
   match op with
   | .truncate n =>
-    -- documented: trailing items removed to fit the limit; single strings and empty untouched
-    let want := match before with
-      | .str _ => before.items
-      | _ => before.items.take n
+    -- documented: trailing items removed to fit the limit (no exception for a single string)
+    let want := before.items.take n
     if after.items ≠ want ∨ pvKind after ≠ pvKind before then
-      some s!"PROP-FAIL class=truncate-items limit={n}"
+      match before with
+      | .str _ =>
+        if n = 0 ∧ after = before then some "PROP-FAIL class=truncate-str-limit0 Str value keeps its item after truncate(0)"
+        else some s!"PROP-FAIL class=truncate-items limit={n}"
+      | _ => some s!"PROP-FAIL class=truncate-items limit={n}"
     else if truncate n before ≠ after then some "MODEL-DIFF truncate" else none
   | .extend e =>
     if res = "ok" then
@@ -318,13 +329,23 @@ where
     else if k = "E" then (if o = "xs" then "SS" else (o.drop 1).toString.toUpper)
     else k
 
+def textOf (v : Val) : String :=
+  match v with
+  | .prim (.str s) => hexOfStr s
+  | .prim (.strs l) => ",".intercalate (l.map hexOfStr)
+  | _ => "-"
+
 def handleConv (v : Val) (toks : List String) (sigPre : String) : String :=
   let res := toks.map parseRes
   if res.length ≠ 20 ∨ res.any (· == .bad) then "BAD-LINE" else
-  match convOracle v res with
-  | some f => s!"PROP-FAIL {f} value={valKind v}"
-  | none =>
-    match convDiff v res with
+  let orc := convOracle v res
+  let isKnown := match orc with | some f => f.startsWith "class=negative-zero-unsigned" | none => false
+  match orc, isKnown, convDiff v res with
+  | some f, false, _ => s!"PROP-FAIL {f} value={valKind v}"
+  | some _, true, some d => s!"MODEL-DIFF {d}"
+  | some f, true, none => s!"PROP-FAIL {f} value={valKind v} text={textOf v}"
+  | none, _, d =>
+    match d with
     | some d => s!"MODEL-DIFF {d}"
     | none =>
       let card := match v with | .prim p => p.card | .seq l => l.length | .pix _ f => f.length
@@ -332,18 +353,27 @@ def handleConv (v : Val) (toks : List String) (sigPre : String) : String :=
       let triv := match v with | .prim .empty => "trivial-" | _ => ""
       s!"ok {triv}{sigPre}-{valKind v}-{cardClass card}-int{nok}{textClass v}"
 
-partial def histLoop (level : String) (cur : Val) (toks : List String) (kinds : List String) (nOk : Nat) : String :=
+partial def histLoop (level : String) (cur : Val) (toks : List String) (kinds : List String)
+    (known : Option String) : String :=
   match toks with
-  | [] => s!"ok hist-{level}-{kinds.getLast?.getD ""}-{valKind cur}-{String.intercalate "+" (kinds.dropLast.eraseDups.mergeSort (· ≤ ·))}"
-  | "end" :: rest => handleConv cur rest s!"hist-{kinds.getLast?.getD ""}-{kinds.dropLast.eraseDups.length}ops"
+  | [] => known.getD s!"ok hist-{level}-{kinds.getLast?.getD ""}-{valKind cur}-{String.intercalate "+" (kinds.dropLast.eraseDups.mergeSort (· ≤ ·))}"
+  | "end" :: rest =>
+    let r := handleConv cur rest s!"hist-{kinds.getLast?.getD ""}-{kinds.dropLast.eraseDups.length}ops"
+    -- a recorded finding met on the way is reported unless something else is wrong
+    match known with
+    | some k => if r.startsWith "ok" then k else r
+    | none => r
   | o :: r :: a :: rest =>
     match parseOp o, parseVal a with
     | some op, some after =>
       match cur, after with
       | .prim b, .prim af =>
         match histStepP b op r af with
-        | some bad => bad
-        | none => histLoop level after rest (opKind op :: kinds) nOk
+        | some bad =>
+          if bad.startsWith "PROP-FAIL class=truncate-str-limit0" then
+            histLoop level after rest (opKind op :: kinds) (known <|> some bad)
+          else bad
+        | none => histLoop level after rest (opKind op :: kinds) known
       | _, _ =>
         -- Value::truncate on sequences / pixel fragment sequences
         match op with
@@ -355,7 +385,7 @@ partial def histLoop (level : String) (cur : Val) (toks : List String) (kinds : 
             | _, _ => false
           if !itemsOk then s!"PROP-FAIL class=truncate-items limit={n}"
           else if want ≠ after then "MODEL-DIFF Value::truncate"
-          else histLoop level after rest (opKind op :: kinds) nOk
+          else histLoop level after rest (opKind op :: kinds) known
         | _ => "BAD-LINE"
     | _, _ => "BAD-LINE"
   | _ => "BAD-LINE"
@@ -368,7 +398,7 @@ def handle (line : String) : String :=
     | none => "BAD-LINE"
   | "hist" :: level :: val :: rest =>
     match parseVal val with
-    | some v => histLoop level v rest [valKind v] 0
+    | some v => histLoop level v rest [valKind v] none
     | none => "BAD-LINE"
   | _ => "BAD-LINE"
 
